@@ -42,6 +42,7 @@ def shards(tier, seed):
     out.append(("jac_big", dict(kind="jac_big", count=2000 if q else 30000)))
     out.append(("jac_worstcase", dict(kind="jac_worst", maxbits=1000)))
     out.append(("sqrt_all_small_primes_residues", dict(kind="sqrt_hard", count=2 if q else 8)))
+    out.append(("sqrt_degenerate", dict(kind="sqrt_degenerate", per=4 if q else 40)))
     out.append(("jac_huge_composite", dict(kind="jac_huge", count=30 if q else 300)))
     for i in range(2 if q else 6):
         out.append(("concurrent_%d" % i, dict(kind="concurrent", runs=40 if q else 400)))
@@ -51,6 +52,10 @@ def shards(tier, seed):
     out.append(("child_werror_sqrt_curve", dict(kind="sqrt_curve", cname="NIST224p", count=20, _pyopt="werror+bb")))
     out.append(("child_werror_jac_inv", dict(kind="jac_big", count=400, _pyopt="werror")))
     out.append(("child_werror_inv", dict(kind="inv_big", count=300, _pyopt="werror+opt+hashseed")))
+    # the library's arithmetic variant for the legacy gmpy package (never taken in this sandbox otherwise)
+    out.append(("child_gmpy_inv_small", dict(kind="inv_small", lo=2, hi=120 if q else 200, step=1, _pyopt="fakegmpy")))
+    out.append(("child_gmpy_inv_big", dict(kind="inv_big", count=600 if q else 6000, _pyopt="fakegmpy")))
+    out.append(("child_gmpy_sqrt", dict(kind="sqrt_small", pmax=300, part=0, parts=1, _pyopt="fakegmpy")))
     return out
 
 
@@ -219,6 +224,62 @@ def run(ctx, name, kind, **kw):
                         cand.append(a)
         for a in cand:
             check_sqrt(ctx, a, p, extra=c.name)
+    elif kind == "sqrt_degenerate":
+        # For p = 1 (mod 8) the library finds the root as x^((p+1)/2) in F_p[x]/(x^2 - b x + a) with the first b making that quadratic
+        # irreducible.  The powers of x run through F_p exactly when the order d of x in F_{p^2}*/F_p* divides the exponent: residues a
+        # built so that d is a SMALL odd number make the intermediate polynomials collapse to constants again and again (degenerate
+        # top coefficients), which random residues never do.  Construction: z = w^((p+1)/d) has z^d in F_p; rescaled to trace 2 it is a
+        # root of x^2 - 2x + a with a = norm; b = 2 is the first b the library tries.
+        def f2_mul(u, v, nu, p_):
+            return ((u[0] * v[0] + nu * u[1] * v[1]) % p_, (u[0] * v[1] + u[1] * v[0]) % p_)
+
+        def f2_pow(u, e, nu, p_):
+            r = (1, 0)
+            while e:
+                if e & 1:
+                    r = f2_mul(r, u, nu, p_)
+                u = f2_mul(u, u, nu, p_)
+                e >>= 1
+            return r
+        primes = [lib.dom_of(lib.BY_NAME["NIST224p"]).p]
+        M = 3 * 5 * 7 * 11 * 13 * 41
+        for bits in (130, 200):
+            k = rng.getrandbits(bits - 20) | (1 << (bits - 21))
+            while True:
+                k += 1
+                p_ = 8 * M * k - 1
+                if p_ % 8 != 1:
+                    p_ = 8 * M * k + (8 * M - 1)
+                # p = -1 mod M and p = 1 mod 8: solve by stepping through multiples
+                cand = M * (8 * k) - 1
+                for _j in range(8):
+                    if cand % 8 == 1 and nt.is_prime(cand, 4, rng):
+                        break
+                    cand += M
+                else:
+                    continue
+                primes.append(cand)
+                break
+        for p_ in primes:
+            # small odd prime divisors of p + 1
+            ds = [d for d in nt.primes_below(2000) if d > 2 and (p_ + 1) % d == 0]
+            nu = next(v for v in range(2, 200) if nt.legendre(v, p_) == -1)
+            made = 0
+            for d in ds[:6]:
+                for _ in range(kw["per"]):
+                    w = (rng.randrange(1, p_), rng.randrange(1, p_))
+                    z = f2_pow(w, (p_ + 1) // d, nu, p_)
+                    if z[1] == 0 or z[0] == 0:
+                        continue
+                    c = 1 * nt.inv(z[0], p_) % p_          # trace(z) = 2 z0  ->  scale by 1/z0 so that the trace is 2
+                    x = (z[0] * c % p_, z[1] * c % p_)
+                    a_ = (x[0] * x[0] - nu * x[1] * x[1]) % p_          # norm
+                    if a_ == 0 or nt.legendre(a_, p_) != 1 or nt.legendre((4 - 4 * a_) % p_, p_) != -1:
+                        continue
+                    made += 1
+                    check_sqrt(ctx, a_, p_, extra="degenerate_d%d" % d)
+            ctx.count("sqrt_degenerate_residues", made)
+            ctx.case("sqrt.degenerate", key="%d|%s" % (p_.bit_length(), ",".join(map(str, ds[:6]))), nontrivial=made > 0)
     elif kind == "sqrt_randp":
         conds = [("3mod4", lambda v: v % 4 == 3), ("5mod8", lambda v: v % 8 == 5), ("1mod8", lambda v: v % 8 == 1),
                  ("1mod16", lambda v: v % 16 == 1), ("1mod2^10", lambda v: v % 1024 == 1)]
